@@ -32,7 +32,7 @@ pub enum Ty {
 }
 
 /// the other built-in types: (ASN.1 spelling, kind label, rasn type of the bindings, JER / TypeScript type)
-pub const BUILTINS: [(&str, &str, &str, &str); 16] = [
+pub const BUILTINS: [(&str, &str, &str, &str); 17] = [
     ("BIT STRING", "BITSTRING", "BitString", "bits"),
     ("OBJECT IDENTIFIER", "OID", "ObjectIdentifier", "string"),
     ("RELATIVE-OID", "RELATIVE-OID", "ObjectIdentifier", "string"),
@@ -49,6 +49,8 @@ pub const BUILTINS: [(&str, &str, &str, &str); 16] = [
     ("T61String", "T61String", "TeletexString", "string"),
     ("GraphicString", "GraphicString", "GraphicString", "string"),
     ("GeneralString", "GeneralString", "GeneralString", "string"),
+    // X.680 48: ObjectDescriptor ::= [UNIVERSAL 7] IMPLICIT GraphicString
+    ("ObjectDescriptor", "ObjectDescriptor", "GraphicString", "string"),
 ];
 
 #[derive(Clone, Serialize, Deserialize, PartialEq, Debug)]
